@@ -123,8 +123,14 @@ def run(ctx):
     for f, e, kind, rhs in field_writes(prog, 'Node::mtime_', [up]):
         guarded(ctx, 'C03.G3', up, e, lambda a: mentions_field(a, 'Node::exists_'), False,
                 'phony mtime is adopted only for a node that does not exist', construct='UpdatePhonyMtime:exists')
-        ok = isinstance(strip(rhs), dict) and lastname(strip(rhs).get('name')) == 'max' and \
-            mentions_field(rhs, 'Node::mtime_')
+        # `mtime_ = std::max(mtime_, t)` is analysed as `if (mtime_ < t) mtime_ = t;` (nv/inline.py): the store is reached
+        # only where the current value is strictly smaller than the stored one
+        def grows(a, rhs=rhs):
+            a = strip(a)
+            return isinstance(a, dict) and a.get('k') == 'bin' and a.get('op') == '<' and \
+                mentions_field(a['l'], 'Node::mtime_') and dstr(strip(a['r'])) == dstr(strip(rhs))
+        ok = (isinstance(strip(rhs), dict) and lastname(strip(rhs).get('name')) == 'max' and mentions_field(rhs, 'Node::mtime_')) or \
+            fact_holds(up.facts_at(e), grows, True)
         ctx.check('C03.G3', ok, up.name, 'UpdatePhonyMtime:not-max', up.where(e),
                   'phony mtime only grows (std::max with the current value): %s' % dstr(rhs))
     for e in ph.calls('Node::UpdatePhonyMtime'):
